@@ -113,6 +113,27 @@ func (cs *ContractSet) parseFile(path string, trusted bool) error {
 		}
 		stmts = append(stmts, pending{l, i + 1})
 	}
+	// textual macros: "define NAME = text", used as #NAME
+	defs := map[string]string{}
+	var kept []pending
+	for _, s := range stmts {
+		if strings.HasPrefix(s.head, "define ") {
+			name, val, ok := strings.Cut(s.head[len("define "):], "=")
+			if ok {
+				defs[strings.TrimSpace(name)] = strings.TrimSpace(val)
+			}
+			continue
+		}
+		kept = append(kept, s)
+	}
+	stmts = kept
+	for i := range stmts {
+		for pass := 0; pass < 3 && strings.Contains(stmts[i].head, "#"); pass++ {
+			for name, val := range defs {
+				stmts[i].head = strings.ReplaceAll(stmts[i].head, "#"+name, val)
+			}
+		}
+	}
 	for _, s := range stmts {
 		m := clauseRe.FindStringSubmatch(s.head)
 		if m == nil {
